@@ -61,12 +61,35 @@ func init() {
 	Register(&Check{ID: "C06", Level: "exploration",
 		Rule: "one case = one generated workflow with mixed CoresPerTask (1..max) and 1..6 slots under one schedule; the invariant 'sum of cores over tasks between command start and exit <= maxConcurrentTasks' is evaluated after EVERY simulator step (exact, not a lower bound). Some cases pre-place outputs so that skipped tasks interleave. distinct = event-log hash; non-trivial = >=2 tasks executed and >=1 non-default choice",
 		Run: func(c *Case) Verdict {
-			w := Generate(c.Tape, tierProfile(profC06, c.Tier))
+			var w *WF
+			if c.Tape.Choose(simrt.StGen, 6, 0) == 1 {
+				// a streaming producer/consumer pair next to ordinary tasks: the
+				// consumer's command executes too and must be accounted for
+				w = streamWF(c)
+				n := 2 + c.Tape.Choose(simrt.StGen, 4, 0)
+				oneToOne(w, "side", Edge{srcNode(w, "srcside", n, ""), "out"})
+			} else {
+				w = Generate(c.Tape, tierProfile(profC06, c.Tier))
+			}
 			// bias towards multi-core tasks: this check is about them
 			for i := range w.Nodes {
 				n := &w.Nodes[i]
-				if n.Kind == KProc && c.Tape.Choose(simrt.StGen, 2, 0) == 1 {
+				if n.Kind == KProc && n.Name != "prod" && n.Name != "cons" && c.Tape.Choose(simrt.StGen, 2, 0) == 1 {
 					n.Cores = 1 + c.Tape.Choose(simrt.StGen, w.MaxTasks, 0)
+				}
+				// launcher prefix (Process.Prepend): the task still runs here
+				if n.Kind == KProc && n.Custom == 0 && c.Tape.Choose(simrt.StGen, 4, 0) == 1 {
+					n.Prepend = []string{"nice -n 10", "env", "nohup"}[c.Tape.Choose(simrt.StGen, 3, 0)]
+				}
+			}
+			if c.Tape.Choose(simrt.StGen, 6, 0) == 1 {
+				// many slots and many cores per task (more than the host has CPUs)
+				k := 8 + 4*c.Tape.Choose(simrt.StGen, 6, 0)
+				w.MaxTasks *= k
+				for i := range w.Nodes {
+					if w.Nodes[i].Kind == KProc && w.Nodes[i].Cores > 0 {
+						w.Nodes[i].Cores *= k
+					}
 				}
 			}
 			c.Sample = sample(w)
